@@ -110,8 +110,9 @@ K_TLS = {
 K_TLS_CAP = {"vk_tls_cap_selection_22": H("B", "thread_list_stream::write (which threads are size-limited)", "22 threads, symbolic size limit")}
 K_DUMP = {
     "vk_dump_reused_writer": H("C", "MinidumpWriter::dump (control flow, arbitrary stale writer state)"),
-    "vk_dump_fresh_writer_all_paths": H("C", "MinidumpWriter::dump (control flow, every failure path)"),
 }
+# one CBMC instance of this harness needs ~40 GB (50 M variables): it runs alone
+G_DUMP = {"tiers": T, "jobs": 1, "timeout": 7200, "mem_gb": 52, "harnesses": K_DUMP}
 K_GENERATE = {"vk_generate_dump_control_flow": H("C", "MinidumpWriter::generate_dump (control flow against stubbed section writers)")}
 K_SANITIZE = {
     "vk_sanitize_len8_1map": H("B", "PtraceDumper::sanitize_stack_copy", "8-byte symbolic stack, 1 symbolic mapping <= 4 MiB, sp_offset 0..=17"),
@@ -262,7 +263,8 @@ PLAN["C20"] = {
               {"unit": "find_mapping", "functions": ["find_mapping_no_bias"], "tags": ["C20"], "tiers": Q},
               {"unit": "stack_scan", "functions": ["stack_has_pointer_to_mapping"], "tags": ["C20"], "tiers": Q}],
     "kani": [{"tiers": Q, "jobs": 4, "timeout": 900, "harnesses": K_HAS_PTR},
-             {"tiers": T, "jobs": 2, "timeout": 5400, "mem_gb": 24, "harnesses": dict(K_DUMP, **{"vk_has_ptr_len24": H("B", "MappingInfo::stack_has_pointer_to_mapping", "24-byte symbolic stack copy")})}],
+             {"tiers": T, "jobs": 1, "timeout": 1800, "mem_gb": 24, "harnesses": {"vk_has_ptr_len24": H("B", "MappingInfo::stack_has_pointer_to_mapping", "24-byte symbolic stack copy")}},
+             G_DUMP],
     "native": [N_TLS],
     "twins": TWINS_STACK,
     "trusted": ["stack_has_pointer_to_mapping's contract (has_ptr) is assumed in the unit `stack` and proved in the unit `stack_scan` relative to a stand-in of byteorder's read_u64::<NativeEndian> on &[u8] (little-endian word of the first 8 bytes, Err when shorter); Kani runs the real byteorder code at stated lengths"],
@@ -290,7 +292,8 @@ PLAN["C04"] = {
                    "(bounded, thorough); dump()/generate_dump() never read the target after resuming it (complete relative to stubs, thorough)",
     "verus": [],
     "kani": [{"tiers": Q, "jobs": 3, "timeout": 1200, "harnesses": dict(K_REGS_THREAD, **K_SUSPEND_THREADS)},
-             {"tiers": T, "jobs": 3, "timeout": 5400, "mem_gb": 20, "harnesses": dict(K_TLS, **dict(K_DUMP, **K_GENERATE))}],
+             {"tiers": T, "jobs": 3, "timeout": 5400, "mem_gb": 20, "harnesses": dict(K_TLS, **K_GENERATE)},
+             G_DUMP],
     "native": [{"stem": "ptrace_dumper", "filter": "bprime_enumerate", "tiers": Q, "tests": {
         "bprime_enumerate_threads_of_this_process": H("B'", "PtraceDumper::enumerate_threads (this process as the target)", "6 helper threads + the runner's own, compared with /proc/self/task")}}],
     "native_files": [N_LIVE_NOATTACH],
@@ -305,7 +308,8 @@ PLAN["C03"] = {
                    "dumper (thorough). Signal delivery itself is the kernel's side and is not decided",
     "verus": [],
     "kani": [{"tiers": Q, "jobs": 5, "timeout": 900, "harnesses": K_SUSPEND},
-             {"tiers": T, "jobs": 3, "timeout": 5400, "mem_gb": 20, "harnesses": dict(K_DUMP, **K_GENERATE)}],
+             {"tiers": T, "jobs": 1, "timeout": 5400, "mem_gb": 24, "harnesses": K_GENERATE},
+             G_DUMP],
     "native_files": [{"name": "c03_error_paths", "tiers": Q, "tests": {
         "target_runs_again_after_every_return_path": H("B'", "MinidumpWriter::dump on a live 4-thread child; afterwards no thread is traced or stopped",
             "5 option sets (incl. 1 ms stop timeout), an unreadable app-memory region, an I/O error at every destination write index")}}],
@@ -318,7 +322,7 @@ PLAN["C19"] = {
     "explanation": "dump() enters generate_dump with empty per-dump state for every incoming writer state (Kani, complete relative to stubs, thorough); "
                    "given that, memory_list_stream::write emits exactly the blocks of this dump and exception_stream::write only a context set in this dump (Verus)",
     "verus": [dict(STACK, functions=["memory_list_stream_write", "exception_stream_write"], tags=["C19"])],
-    "kani": [{"tiers": T, "jobs": 2, "timeout": 5400, "mem_gb": 24, "harnesses": K_DUMP}],
+    "kani": [G_DUMP],
     "native_files": [{"name": "c19_reuse", "tiers": Q, "tests": {
         "second_dump_of_a_reused_writer_equals_a_fresh_one": H("B'", "MinidumpWriter::dump x2 on a live 3-thread child", "one reuse, idle target"),
         "reused_writer_with_another_blamed_thread": H("B'", "MinidumpWriter::dump x2, blamed thread changed in between", "4-thread child"),
